@@ -21,10 +21,10 @@ structure Hasher where
   size : Nat
   deriving DecidableEq, Repr
 
-/-- `NewHasher` / `GetHash`: unknown names are an error -/
 /-- `GetCompressor`: "gz" is the one compressor; every other name is an error -/
 def knownCompressor (name : Bytes) : Bool := name = [103, 122]
 
+/-- `NewHasher` / `GetHash`: unknown names are an error -/
 def newHasher (name : Bytes) : Res Hasher :=
   if supported name then .ok ⟨name, [], 0⟩ else .error .err
 
